@@ -523,8 +523,9 @@ def run_verify_cases(ctx, suite, cases, check_c01=True, expect=None, prop=None):
             elif payload != impl[1][0] or hdrs != impl[1][1]:
                 report(ctx, prop or "C01", f"returned payload/header differ from the signed ones ({c.note})", c, impl,
                        extra={"expected_payload": repr(payload), "expected_headers": repr(hdrs)})
-        if expect is not None:
-            msg = expect(c, impl)
+        ex = getattr(c, "expect", None) or expect
+        if ex is not None:
+            msg = ex(c, impl)
             if msg:
                 report(ctx, prop or ctx.prop, msg, c, impl)
     return cases
